@@ -197,12 +197,24 @@ def run_check(
     chunk = getattr(mod, "CHUNK", chunk)
     results: List[Dict[str, Any]] = []
     maxtasks = getattr(mod, "MAXTASKS", None)
+    # cases marked {"fresh": True} probe process-global state of the library (caches keyed by value,
+    # shared default objects): each of them runs in a brand-new interpreter, so its outcome does not
+    # depend on which other cases the worker happened to execute before it
+    fresh_idx = [i for i, c in enumerate(cases) if isinstance(c, dict) and c.get("fresh")]
+    normal_idx = [i for i, c in enumerate(cases) if not (isinstance(c, dict) and c.get("fresh"))]
+    slots: List[Any] = [None] * n
     if nproc == 1 or n <= 2:
-        results = [_run_one((modname, c)) for c in cases]
-    else:
-        with pool(min(nproc, n), maxtasks) as p:
-            for r in p.imap(_run_one, [(modname, c) for c in cases], chunksize=chunk):
-                results.append(r)
+        for i in normal_idx:
+            slots[i] = _run_one((modname, cases[i]))
+    elif normal_idx:
+        with pool(min(nproc, len(normal_idx)), maxtasks) as p:
+            for i, r in zip(normal_idx, p.imap(_run_one, [(modname, cases[i]) for i in normal_idx], chunksize=chunk)):
+                slots[i] = r
+    if fresh_idx:
+        with pool(min(nproc, len(fresh_idx)), 1) as p:
+            for i, r in zip(fresh_idx, p.imap(_run_one, [(modname, cases[i]) for i in fresh_idx], chunksize=1)):
+                slots[i] = r
+    results = slots
 
     harness_errors = [r for r in results if "harness_error" in r]
     if harness_errors:
